@@ -21,7 +21,7 @@ pub fn snapshot_before_recovery(ctx: &Rc<RunCtx>, power_loss: bool) {
             let torn_tail = w.phys.get(&id).map(|v| v.iter().any(|r| !r.complete)).unwrap_or(false);
             let short_header = sh.content.len() < BLOB_HEADER_LEN;
             let unsynced = power_loss && (sh.synced_len < sh.content.len() as u64 || !sh.pending.is_empty());
-            if torn_tail || short_header || sh.has_holes || unsynced {
+            if torn_tail || short_header || sh.has_holes || !sh.gaps.is_empty() || unsynced {
                 victims.insert(id);
             }
         }
